@@ -1034,9 +1034,9 @@ func (c *Ctx) loopCounterBound(f *ssa.Function, idx ssa.Value) (ssa.Value, bool)
 // indexedFill recognises `s := make([]T, p+q)` followed by exactly two
 // indexed assignments: s[i] for i over [0,p) and s[p+j] for j over [0,q).
 func (c *Ctx) indexedFill(ms *ssa.MakeSlice) ([]rootAdd, bool) {
-	lb, ok := ms.Len.(*ssa.BinOp)
-	if !ok || lb.Op != token.ADD {
-		return nil, false
+	lb, isSumLen := ms.Len.(*ssa.BinOp)
+	if isSumLen && lb.Op != token.ADD {
+		isSumLen = false
 	}
 	f := ms.Parent()
 	sameLen := func(a, b ssa.Value) bool {
@@ -1063,6 +1063,16 @@ func (c *Ctx) indexedFill(ms *ssa.MakeSlice) ([]rootAdd, bool) {
 				idxs = append(idxs, ia.Index)
 			}
 		}
+	}
+	if !isSumLen {
+		// make([]T, p, cap) whose p elements are all assigned by one index
+		// loop over [0,p) (further elements are appended)
+		if len(stores) == 1 {
+			if n1, ok := c.loopCounterBound(f, idxs[0]); ok && sameLen(n1, ms.Len) {
+				return []rootAdd{{stores[0], stores[0].Val}}, true
+			}
+		}
+		return nil, false
 	}
 	if len(stores) != 2 {
 		return nil, false
